@@ -144,8 +144,8 @@ Proof.
   destruct (Inv_did_get_entry st did Hi) as [G|[d' [Hd' [[Hid _]|[He Hs]]]]].
   - unfold get_entry in Ee. rewrite G in Ee. discriminate.
   - rewrite Edoc in Hd'. inversion Hd'; subst d'. exact Hid.
-  - rewrite Edoc in Hd'. assert (Hdd : doc = empty_doc) by congruence. subst doc. unfold entry_deactivated in Ed. rewrite Edoc in Ed.
-    apply N.eqb_neq in Hs. rewrite Hs in Ed. vm_compute in Ed. discriminate.
+  - rewrite Edoc in Hd'. assert (Hdd : doc = d') by congruence. subst d'. unfold entry_deactivated in Ed. rewrite Edoc in Ed.
+    apply N.eqb_neq in Hs. rewrite Hs, He in Ed. simpl in Ed. discriminate.
 Qed.
 
 Theorem resolves_to_itself_along_histories o bs c did doc seq :
@@ -210,9 +210,9 @@ Proof.
   - (* update: the sequence has moved on, and the signature is bound to the old one *)
     apply vb_create_update_strict in Hvb as [Hv [d [-> [Hid Hne]]]]. simpl in Hx, Hy.
     destruct (update_did (o_b58key o) (o_verify o) marshal_doc (c_did c) did d vmid sg) as [st'| |] eqn:Ec; simpl in Hx; try discriminate.
-    inversion Hx; subst c1. simpl in *. apply update_did_ok in Ec as [stored [_ [_ [_ [[vm [pk [_ [_ [_ Hv1]]]]] ->]]]]].
+    inversion Hx; subst c1. simpl in *. apply update_did_ok in Ec as [stored [_ [_ [_ [[_ [vm [pk [_ [_ [_ Hv1]]]]]] ->]]]]].
     destruct (update_did (o_b58key o) (o_verify o) marshal_doc (c_did (run o _ bs)) did d vmid sg) as [st2| |] eqn:Ec2; simpl in Hy; try discriminate.
-    apply update_did_ok in Ec2 as [stored2 [_ [_ [_ [[vm2 [pk2 [_ [_ [_ Hv2]]]]] _]]]]].
+    apply update_did_ok in Ec2 as [stored2 [_ [_ [_ [[_ [vm2 [pk2 [_ [_ [_ Hv2]]]]]] _]]]]].
     pose proof (Hb _ _ _ _ _ Hv1 Hv2) as Heq. apply signbytes_inj in Heq as [_ Hseq].
     destruct (Hm did) as [Hk _]. rewrite get_entry_set_same in Hk.
     assert (He : entry_empty {| en_doc := Some d; en_seq := en_seq (get_entry (c_did c) did) + 1 |} = false).
